@@ -105,6 +105,18 @@ def body(case, rec):
                 raise Violation(f"run failed when the input file is called {twin} (in another directory than the output): {msg[-200:]!r}")
             O = snapshot(outd)
             names = sorted(O)
+        # the output set is learned from the run itself; one part of it is known independently: every curated assembly
+        # file that holds a numbered chromosome has a chromosome list beside it
+        import re
+
+        pre = re.escape(case.get("prefix", "SUPER_"))
+        for n in names:
+            if ".curated." in n and n.endswith("." + fmt):
+                text = O[n].decode("utf-8", "replace")
+                has_chr = re.search(rf"(^>|^|\t){pre}\d+(\t|$|\n)", text, re.M) is not None
+                csv_name = n.split(".curated.")[0] + ".chromosome.list.csv"
+                if has_chr and csv_name not in O:
+                    raise Violation(f"{n} holds numbered chromosomes but the run wrote no {csv_name}: {names}")
         if case["write_log"] and "x.2.log" not in O:
             raise Violation(f"--write-log run (log level {case.get('log_level')}) wrote no log file: {names}")
         classes = {f"fmt_{fmt}", "log" if case["write_log"] else "no_log", "subprocess" if sub else "inprocess"}
